@@ -119,7 +119,8 @@ class TypePrinter:
     @_visit.register
     def _visit_TupleType(self, ty: TupleType, inside_row: bool) -> str:
         args = ", ".join(self._visit(arg, True) for arg in ty.args)
-        return f"({args})"
+        # A 1-tuple needs the trailing comma, otherwise `(int)` reads back as `int`
+        return f"({args},)" if len(ty.args) == 1 else f"({args})"
 
     @_visit.register
     def _visit_NoneType(self, ty: NoneType, inside_row: bool) -> str:
